@@ -89,7 +89,7 @@ func (p *c10Pair) integrate(t0, t1 time.Time, val func(o c10Obs) *big.Float, val
 
 func runC10(c *vk.Ctx) {
 	c.R.Rule = "cases = histories with a balancer, a stableswap and a concentrated pool, 40..120 real blocks of 1 ms .. 3 days (idle blocks, several price moves per block, joins/exits, the concentrated pool emptied and refilled to provoke spot-price errors), keep period 2h..48h with pruning epochs, then 200..500 queries per history: ArithmeticTwap / GeometricTwap / ...ToNow for both quote directions with start/end on, between, just before and after record times, plus degenerate [t, t] point queries. The monitor reads the end-of-block spot prices itself after every block and compares every answer with the time-weighted mean over canonical milliseconds (arithmetic: exact after the final truncation; geometric: within half a unit of the last kept significant figure), checks min/max bounds, reciprocity of the geometric directions, the error flag on intervals in which an errored price was in force, and that answers inside the keep window are identical before and after pruning. distinct_nontrivial counts distinct (pool kind, twap kind, #records in force bucket, starts on record?, ends now?, touches error?, after pruning?) tuples."
-	nHist := c.N(120, 2880)
+	nHist := c.N(240, 2880)
 	c.Cases("history", nHist, func(i int, r *vk.Rng) {
 		ch := chain.New(chain.Options{Denoms: []string{"aaa", "bbb", "bbbb", "ccc"}, NumAccounts: 6, Epochs: map[string]time.Duration{"day": 6 * time.Hour, "week": 1000 * time.Hour}})
 		defer ch.Close()
